@@ -67,6 +67,9 @@ def nontrivial(line, out):
 def oracle(line, out):
     tok = line.split(" ")
     v = ok_val(out)
+    if tok[0] == "hist":
+        from .c13 import oracle as o13
+        return o13(line, out)
     if tok[0] == "w_bypath":
         # watch-only wallet built from an extended public key: decode the key independently, derive with CKDpub
         raw = b58check_dec(unstr(tok[1].split(":")[1]))
@@ -167,7 +170,25 @@ def wallet_cases(rng, tier):
                 yield "w_bypath xkey:%s %s" % (sx(xk), sx(pth)), "wallet-sibling-xpubs"
 
 
+def _hist_cases(rng, tier):
+    """public-only derivation inside operation histories on ONE shared watch-only object (children kept and looked at
+    again after bulk generation with empty and non-empty intervals, repeated and refused requests); judged by the
+    stateless recomputation of C13"""
+    from .c13 import gen_history
+    for _ in range(3 if tier == "quick" else 60):
+        k = rng.randrange(1, N)
+        x, y = point(k)
+        chain = bytes(rng.getrandbits(8) for _ in range(32))
+        xk = common.xkey_string(XPUB, 0, bytes(4), 0, chain, sec_c(x, y))
+        i, j = rng.choice(NORMAL), rng.choice(NORMAL)
+        a = rng.choice([0, 3, 5])
+        ops = ["ckd:0:%d" % i, "dp:0:%s" % impl.lst(str, [j, i]), "gc:0:%d:%d" % (a, a), "xk:1", "xk:2",
+               "gc:1:%d:%d" % (a + 2, a), "gc:0:0:2", "xk:1", "ad:2:p2wpkh"] + gen_history(rng, 10, watch=True)
+        yield "hist xkey:%s %s" % (sx(xk), ";".join(ops)), "shared-public-object-history"
+
+
 def cases(rng, tier):
     yield from _cases_main(rng, tier)
+    yield from _hist_cases(rng, tier)
     yield from collision_cases(rng, tier, neuter_fn=neuter)
     yield from wallet_cases(rng, tier)
